@@ -48,6 +48,24 @@ CHECKS = {
  "C17": ("model_checking", "same complete mutation families as C07 plus consistent-but-unbacked count ladders (2^10..2^27/2^30), each reader call measured by a counting global allocator in an isolated worker process",
          "Peak live bytes above the level at call entry and the largest single request stay below 64 x input bytes + 64 KiB for every reader call on every enumerated input.",
          "The additive constant (64 KiB) is the harness's reading of 'plus a constant'. Inputs outside the families are not covered.", "DESIGN.md 3/C17"),
+ "C08": ("model_checking", "stateright BFS over write-call histories (accepted pairs, wrong shape type, three kinds of rejected rows) on the real complete Writer; entry counts read from raw bytes; pairs read back with the real complete Reader",
+         "All histories up to depth 5 (thorough 6) over a 6-letter alphabet, 3 types (thorough 13), in memory and (to depth 3) through Writer::from_path + shapefile::read / Reader::from_path: three entry counts equal the number of accepted pairs and the reader returns exactly those pairs, shape i with row i.",
+         "One listed known finding (row rejected after the shape was committed) is reported as KNOWN-FINDING; any other outcome of such a history, and every history without a rejected row, is still judged in full.", "DESIGN.md 3/C08"),
+ "C11": ("fault_enumeration", "exhaustive crash-point enumeration: for every workload (writer history) the operation logs of .shp and .shx are cut at every operation boundary and at every byte inside every write, independently; every image (pair) is read by the real reader",
+         "Workloads = all histories over {Wa, Wb, F} with <= 3 writes and <= 2 finalizes (finalize-first included) for 3 types (thorough 13, longer histories); every distinct .shp image without index and every (.shp image, .shx image) pair with index: error or a prefix of the written shapes, never an invented / reordered shape, never a panic; shapes covered by a finalize completed on the .shp stay readable.",
+         "Failure model of the statement (prefix of the operation sequence, torn write, no reordering).", "DESIGN.md 3/C11"),
+ "C12": ("fault_enumeration", "exhaustive fault-point enumeration: every operation index (write, seek, flush) of every workload fails one-shot or persistently on either destination; failed finalizes are retried; plus the short-write schedule family",
+         "Workloads = all histories over {Wa, Wb, F} up to length 4 (thorough 6) x with/without .shx x 3 types (thorough 13): the failing call returns the injected I/O error, earlier calls are unaffected, nothing panics (drop included), a retried finalize completes files byte-identical to the undisturbed run; short writes (uniform chunks and one-deviation schedules) give byte-identical files.",
+         "Injected errors are ErrorKind::Other; chunk schedules are the stated family.", "DESIGN.md 3/C12"),
+ "C13": ("fault_enumeration", "exhaustive truncation / fault / short-read enumeration over valid files read by the real reader",
+         "Per file (5 types, thorough 13; 1-3 records; library-written and RefCodec-written): every truncation length of .shp (with and without index) and of .shx, every read/seek of a full traversal failing one-shot or persistently, every short-read schedule of the family: no panic, nothing invented, whole records returned, the cut record reported as an I/O error, the injected error returned by the call in progress.",
+         "Iteration observed up to the first error.", "DESIGN.md 3/C13"),
+ "C16": ("model_checking", "bounded exhaustive enumeration of ring vertex sequences on a lattice through every public polygon / multipatch constructor and macro; oracle = exact integer shoelace + vertex-sequence comparison",
+         "Every single ring of length 1..5 over a 3x3 lattice x role x {new, with_rings, polygon!} x 3 point types x Z/M patterns; every pair (length <= 4) and triple (length <= 3) of rings over a 2x2 lattice x all role vectors; special-value deviations for closure / preservation; every single patch and pair of patches x 6 kinds.",
+         "Orientation judged where the shoelace sum is exact.", "DESIGN.md 3/C16"),
+ "C20": ("model_checking", "bounded exhaustive enumeration of shapes and geo-types geometries through the real From/TryFrom impls and geo-traits accessors (library built with the geo features); oracle = independent image (RefGeo)",
+         "Points with <= 2 special values, multipoints, polylines, every outer-first role word up to 3 outers x 2 holes x ring templates, every multipatch kind vector up to length 3, every geo-types input kind incl. Rect / Triangle / GeometryCollection, and every Point/PointM/PointZ value class through CoordTrait / PointTrait.",
+         "Inputs that hit documented constructor panics (1-coordinate LineString, empty exterior) are left out.", "DESIGN.md 3/C20"),
 }
 
 NOT_YET = {}
@@ -66,7 +84,7 @@ def main():
                 "thorough_cmd": "./check %s thorough" % pid,
                 "evidence_file": "/verif/evidence/%s.json" % pid,
                 "replay_cmd_template": "./check replay {path}",
-                "engine": "vcheck",
+                "engine": "vcheck-geo" if pid == "C20" else "vcheck",
                 "level_claimed": {"category": cat, "text": text, "design_ref": ref},
                 "level_note": note,
                 "technique": tech,
@@ -84,7 +102,9 @@ def main():
             "add_only": True,
         },
         "engines": [
-            {"name": "vcheck", "path": "/verif/harness", "serves_properties": sorted(CHECKS.keys()),
+            {"name": "vcheck-geo", "path": "/verif/harness-geo", "serves_properties": ["C20"],
+             "kind_free_text": "same machinery, built against shapefile with features geo-types + geo-traits (separate crate so that C01-C19 exercise the default-feature library)"},
+            {"name": "vcheck", "path": "/verif/harness", "serves_properties": sorted(k for k in CHECKS.keys() if k != "C20"),
              "kind_free_text": "stateless bounded exhaustive exploration of the real library: history explorer (stateright BFS over operation histories), structure x deviation enumerator, field-mutation enumerator with subprocess isolation and counting allocator; reference models in harness/src/refmodel"},
         ],
         "checks": checks,
